@@ -52,8 +52,7 @@ def witness_search(tier, seed):
         for bname in ("COPY_ANYWAY", "IGNORE", "ERROR_UNLESS_DEFAULT", "ERROR", None):
             for vname, v in values.items():
                 s = SSCSimfile.blank()
-                import simfile.convert as _cv
-                for lst in _cv.INVALID_PROPERTIES[SMSimfile].values():     # a blank SSC simfile carries several of them
+                for lst in CV.SM_SIMFILE_INVALID.values():     # a blank SSC simfile carries several of them
                     for k in lst:
                         s.pop(k, None)
                 for k in list(kinds):
@@ -90,4 +89,43 @@ def witness_search(tier, seed):
                     got = f"raised {type(e).__name__}"
                 if got != expect:
                     return dict(input=dict(property=prop, value=val, behaviors=str(beh)), detail=f"conversion did '{got}', the policy says '{expect}'")
+    # chart-level properties: each under the behaviour of its own kind
+    for kind, plist in CV.SM_CHART_INVALID.items():
+        for prop in plist:
+            for bname in ("IGNORE", "ERROR_UNLESS_DEFAULT", "ERROR", None):
+                for vname, v in values.items():
+                    s = SSCSimfile.blank()
+                    for lst in CV.SM_SIMFILE_INVALID.values():
+                        for k in lst:
+                            s.pop(k, None)
+                    ch = SSCChart.blank()
+                    for lst in CV.SM_CHART_INVALID.values():
+                        for k in lst:
+                            ch.pop(k, None)
+                    dv = CV.DEFAULT_VALUES.get(prop, "")
+                    if v is not None:
+                        ch[prop] = v.replace("D", dv)
+                    s.charts.append(ch)
+                    beh = {} if bname is None else {getattr(P, kind): getattr(B, bname)}
+                    # every other kind refuses nothing, so that only this property's own kind decides
+                    for other in CV.KINDS:
+                        if other != kind and bname is not None:
+                            beh[getattr(P, other)] = B.IGNORE if bname != "IGNORE" else B.ERROR
+                    eff = bname or CV.DEFAULT_BEHAVIOR[kind]
+                    present = v is not None
+                    val = ch.get(prop)
+                    expect = "ok"
+                    if present and eff == "ERROR":
+                        expect = "refuse"
+                    elif present and eff == "ERROR_UNLESS_DEFAULT" and val.strip() != dv:
+                        expect = "refuse"
+                    try:
+                        ssc_to_sm(s, invalid_property_behaviors=beh)
+                        got = "ok"
+                    except InvalidPropertyException as e:
+                        got = "refuse" if repr(prop) in str(e) else f"refuse-wrong-name({e})"
+                    except Exception as e:
+                        got = f"raised {type(e).__name__}"
+                    if got != expect:
+                        return dict(input=dict(chart_property=prop, value=val, behaviors=str(beh)), detail=f"conversion did '{got}', the policy for {kind} says '{expect}'")
     return None
